@@ -425,8 +425,36 @@ def g8_labels_after_final_rules(ctx) -> None:
         while getattr(cur, "_parent", None) is not f:
             cur = cur._parent
         return f.body.index(cur)
-    if all(top(g) < top(lab[0]) for g in grp) and all(top(s_) < top(lab[0]) for s_ in sub):
+    if sub and any(top(s_) < top(g) for s_ in sub for g in grp):
+        ctx.violation("G8", sub[0], "the rules are wired to their children's recurrences (_set_subrules) before the equivalence chains are folded (_group_equiv_in_path): the rules "
+                      "the folding creates are never wired, and asking them for anything raises")
+    elif all(top(g) < top(lab[0]) for g in grp) and all(top(s_) < top(lab[0]) for s_ in sub):
         ctx.ok("G8", "labels are assigned after the rules were folded into equivalence paths and wired")
     else:
         ctx.violation("G8", lab[0], "labels are assigned (_enforce_labels) before the specification's rules have their final form (_group_equiv_in_path / _set_subrules): the "
                       "classes inside an equivalence path get labels, and a reloaded copy -- built from the folded rules -- numbers its classes differently")
+
+
+def g9_ungroup_only_when_grouping(ctx) -> None:
+    """Equivalence paths are taken apart only as the first step of putting them together
+    (_group_equiv_in_path).  A specification built with group_equiv=False -- what from_dict
+    does with rules that were dumped in their folded form -- keeps its rules as given."""
+    P = ctx.P
+    cls = P.need_class(SP)
+    callers = []
+    for m in cls.methods.values():
+        for c in walk_local(m.node):
+            if isinstance(c, ast.Call) and norm(c.func) == "self._ungroup_equiv_path":
+                callers.append((m, c))
+    if not callers:
+        raise AnalysisError("G9: nobody calls _ungroup_equiv_path any more")
+    for m, c in callers:
+        if m.name == "_group_equiv_in_path":
+            ctx.ok("G9", "equivalence paths are unfolded only inside _group_equiv_in_path")
+        else:
+            gs = {(norm(e), p_) for e, p_ in C.flatten_guards(C.guards(m.node, c))}
+            if ("group_equiv", True) in gs:
+                ctx.ok("G9", f"{m.qualname} unfolds equivalence paths under `group_equiv`")
+            else:
+                ctx.violation("G9", c, f"{m.qualname} unfolds the equivalence paths whether or not they are folded again: with group_equiv=False (a specification being loaded) the "
+                              "rules inside a path, reverse steps included, become rules of the specification on their own")
